@@ -244,7 +244,15 @@ def expand_item(kind, text, stats):
         # drop docs/attributes; make the item and its fields visible to spec functions
         t = re.sub(r"^[ \t]*///[^\n]*\n", "", t, flags=re.M)
         t = re.sub(r"^[ \t]*#\[[^\]]*\][ \t]*\n", "", t, flags=re.M)
-        t = re.sub(r"^\s*(pub(\s*\([^)]*\))?\s+)?struct", "pub struct", t)
+        # keep the derives Verus understands (looked up just above the item in the source)
+        pre = src[max(0, src.rfind("\n\n", 0, src.find(h["text"]))):src.find(h["text"])]
+        md = re.search(r"#\[derive\(([^)]*)\)\]", pre)
+        if md:
+            keep = [x.strip() for x in md.group(1).split(",") if x.strip() in ("Clone", "Copy", "PartialEq", "Eq")]
+            if keep:
+                t = "#[derive(" + ", ".join(keep) + ")]\n" + t.lstrip("\n")
+        t = re.sub(r"^\s*(pub(\s*\([^)]*\))?\s+)?(struct|enum)", r"pub \3", t)
+        t = re.sub(r"^[ \t]*//[^\n]*\n", "", t, flags=re.M)
         t = re.sub(r"^([ \t]+)(?:pub(?:\s*\([^)]*\))?\s+)?([a-z_][A-Za-z0-9_]*\s*:)", r"\1pub \2", t, flags=re.M)
         out = t
     stats.append(dict(file=kv["file"], item=kind + " " + kv["name"], line=h["line"], sha256=rsx.sha(h["text"]),
